@@ -62,4 +62,10 @@ theorem xonsh_builder_table :
        ("target_with_star_atom", "$", "expand_env_name", "Store"), ("target_with_star_atom", "${", "expand_env_expr", "Store")] ∧
     XV.Gen.boolOpTable = [("disjunction", "or,||", "Or"), ("conjunction", "&&,and", "And")] := by decide
 
+/-- C11: in every `raise_syntax_error_known_range(msg, start, end)` of the shipped parser both position arguments come from
+    variables of the alternative, and the conjunct that binds `start` does not come after the one that binds `end` - so
+    (token order, C08; `span_well_oriented`) the reported range does not end before it starts. -/
+theorem range_raise_arguments_in_order :
+    XV.Gen.rangeRaiseTable.all (fun r => decide (0 ≤ r.2.2.1) && decide (r.2.2.1 ≤ r.2.2.2)) = true := by decide
+
 end XVC
